@@ -10,7 +10,7 @@
 // preceded by the classification of non-ASCII runes (UNI L|D <lo> <hi>, from unicode.IsLetter /
 // unicode.IsDigit) and, in every mode, a stream of NUM lines (strconv oracle):
 //
-//	NUM <hex text> <ParseFloat bits|err> <ParseUint|err> <Atoi as int64 hex|err>
+//	NUM <hex text> <ParseFloat bits|err> <ParseUint|err> <Atoi as int64 hex|err> <ParseUint: ok|syntax|range:<value returned>>
 //
 // usage: verif_parser c04 <seed> <files> <maxdefs> | c12 <seed> <files> <maxdefs> <random cases> [<token mutation stride>]
 package main
@@ -19,6 +19,7 @@ import (
 	"bufio"
 	"bytes"
 	"encoding/hex"
+	"errors"
 	"fmt"
 	"math"
 	"math/rand"
@@ -212,6 +213,7 @@ func numStrings(g *gen, n int) []string {
 	alpha := "0123456789012345678901234567890123456789..eE+-__xXpPbBoOaAfF"
 	fixed := []string{"0", "00", "007", "0.", ".5", "1.", "1e", "1e+", "0x", "0x1p", "0x1p-2", "0x1.8p3", "0X_1P4", "0b101", "0o17",
 		"1_000", "1__0", "_1", "1_", "1_.5", "1._5", "1e1_0", "1e_1", "18446744073709551615", "18446744073709551616",
+		"99999999999999999999_9", "99999999999999999999x", "1844674407370955161x", "18446744073709551620", "0777", "00000000000000000000000001",
 		"9223372036854775807", "9223372036854775808", "-9223372036854775808", "-9223372036854775809", "+5", "-5", "+", "-", "",
 		"1e308", "1.7976931348623157e308", "1.7976931348623158e308", "1.7976931348623159e308", "1.8e308", "1e309", "1e400",
 		"4.9e-324", "2.4703282292062327e-324", "2.4703282292062328e-324", "2.5e-324", "1e-400", "2.2250738585072011e-308",
@@ -254,17 +256,21 @@ func numStrings(g *gen, n int) []string {
 
 func emitNums(g *gen, n int) {
 	for _, s := range numStrings(g, n) {
-		fs, us, as := "err", "err", "err"
+		fs, us, as, uk := "err", "err", "err", "ok"
 		if f, err := strconv.ParseFloat(s, 64); err == nil {
 			fs = fmt.Sprintf("%x", math.Float64bits(f))
 		}
 		if u, err := strconv.ParseUint(s, 10, 64); err == nil {
 			us = fmt.Sprintf("%x", u)
+		} else if errors.Is(err, strconv.ErrRange) {
+			uk = fmt.Sprintf("range:%x", u) // Parser.int relies on the value returned with a range error
+		} else {
+			uk = "syntax"
 		}
 		if a, err := strconv.Atoi(s); err == nil {
 			as = fmt.Sprintf("%x", uint64(int64(a)))
 		}
-		fmt.Fprintf(w, "NUM s:%s %s %s %s\n", hex.EncodeToString([]byte(s)), fs, us, as)
+		fmt.Fprintf(w, "NUM s:%s %s %s %s %s\n", hex.EncodeToString([]byte(s)), fs, us, as, uk)
 	}
 }
 
@@ -500,12 +506,18 @@ func randomCase(g *gen, n int) (string, []byte) {
 	default: // integer conversions of BA_DEF_ INT / enum indices / message ids
 		lits := []string{"9223372036854775807", "9223372036854775808", "9223372036854775809", "18446744073709551615", "1e19", "1e18",
 			"9007199254740993", "0.9", "1.5", "-0", "0x1p63", "0x1p62", "9223372036854775295", "9223372036854775296", "1e400", "4294967295", "4294967296",
+			// Parser.int after F12: decimal integer tokens exact over int64, saturating beyond; everything else through float64
+			"9223372036854775806", "9007199254740991", "9007199254740992", "9007199254740995", "4611686018427387905", "18446744073709551616",
+			"18446744073709551617", "99999999999999999999_9", "1_000", "1_0e2", "007", "0777", "00000000009223372036854775807", "008", "0x10", "0b11", "0o17", "0_7",
+			"12.0", "1e3", "3.4E+038", "9223372036854775807.0", "9223372036854774784.0", "9.223372036854775807e18", "9223372036854775808.0", "0x1p4", "1.", ".5",
+			"340282366920938463463374607431768211456", "123456789012345678901234567890e-11",
 			"4294969343", "6442450944", "3221225472", "2147483648", "2048", "2047", "536870912", "2684354559", "2684354560"}
 		a, b := lits[r.Intn(len(lits))], lits[r.Intn(len(lits))]
 		neg := []string{"", "-"}[r.Intn(2)]
-		switch r.Intn(4) {
-		case 0:
-			return "ints", []byte(fmt.Sprintf("BA_DEF_ \"a\" INT %s%s %s;\nBA_DEF_DEF_ \"a\" %s;\n", neg, a, b, b))
+		switch r.Intn(7) {
+		case 0, 4, 5, 6:
+			return "ints", []byte(fmt.Sprintf("BA_DEF_ \"a\" %s %s%s %s;\nBA_DEF_DEF_ \"a\" %s;\nBA_ \"a\" %s%s;\n",
+				[]string{"INT", "HEX"}[r.Intn(2)], neg, a, b, b, neg, a))
 		case 1:
 			return "ints", []byte(fmt.Sprintf("BO_ %s M: %s N\n SG_ S m%s : 0|1@%s+ (1,0) [0|1] \"\" X\n", a, b, b, neg+a))
 		case 2:
